@@ -233,7 +233,7 @@ def emit_tables(g, lr, prefix='REF'):
     o.append('static const uint16_t %s_rule_len[%d] = {%s};' % (prefix, nr + 1, ','.join(str(len(lr.R[r][1])) for r in range(nr + 1))))
     o.append('static const uint8_t %s_rule_f[%d] = {%s};' % (prefix, nr + 1, ','.join([str(FKINDS[r['f']]) for r in g.rules] + ['1'])))
     # is right-side position k of rule r a term? (bitmask)
-    o.append('static const uint16_t %s_rule_tmask[%d] = {%s};' % (prefix, nr + 1, ','.join(str(sum((1 << k) for k, s in enumerate(lr.R[r][1]) if s[0] == 't')) for r in range(nr + 1))))
+    o.append('static const uint16_t %s_rule_tmask[%d] = {%s};' % (prefix, nr + 1, ','.join(str(sum((1 << k) for k, s in enumerate(lr.R[r][1]) if s[0] == 't' and s[1] != g.nt + 1)) for r in range(nr + 1))))
     return '\n'.join(o) + '\n'
 
 # ------------------------------------------------------------------ python mirror of harness/ref_lr.h (token level)
@@ -302,10 +302,11 @@ def simulate(g, lr, toks, ws=False, nl=False, verbose=False):
 def bounds(g, lr, L, verbose=False, with_other=True):
     """max steps / depth / log sizes over all inputs of exactly L symbols (terms + one non-term byte class)"""
     alpha = list(range(g.nt)) + (['x'] if with_other else [])
-    m = dict(steps=0, depth=0, nmsg=0, nred=0, nterm=0, accepted=0, total=0, recovered=0)
+    m = dict(steps=0, depth=0, nmsg=0, nred=0, nterm=0, accepted=0, total=0, recovered=0, nstates_printed=0)
     for toks in itertools.product(alpha, repeat=L):
         r = simulate(g, lr, toks, verbose=verbose)
         for k in ('steps', 'depth', 'nmsg', 'nred', 'nterm'): m[k] = max(m[k], r[k])
+        m['nstates_printed'] = max(m['nstates_printed'], sum(1 for x in r['msgs'] if x[0] in ('SHIFT', 'GOTO', 'RECOVERING_TO')))
         m['total'] += 1
         if r['ok']: m['accepted'] += 1
         if r['ok'] and any(x[0] == 'SYNTAX_ERROR' for x in r['msgs']): m['recovered'] += 1
